@@ -21,6 +21,267 @@ type StackDec<W> = SymbolCoder<W, Stack, Cursor<W, Vec<W>>>;
 type QDec<W> = QueueDecoder<W, Cursor<W, Vec<W>>>;
 
 // ---------------------------------------------------------------------------------------
+// a sink that accepts `cap` words in total and then refuses (`WriteError = ()`); also a stack source
+
+#[derive(Clone, Debug, Default)]
+pub struct BoundedVec<W> {
+    pub v: Vec<W>,
+    pub cap: usize,
+}
+
+impl<W> constriction::backends::WriteWords<W> for BoundedVec<W> {
+    type WriteError = ();
+    fn write(&mut self, word: W) -> Result<(), ()> {
+        if self.v.len() >= self.cap {
+            Err(())
+        } else {
+            self.v.push(word);
+            Ok(())
+        }
+    }
+}
+
+impl<W> ReadWords<W, Stack> for BoundedVec<W> {
+    type ReadError = Infallible;
+    fn read(&mut self) -> Result<Option<W>, Infallible> {
+        Ok(self.v.pop())
+    }
+}
+
+impl<W> BoundedReadWords<W, Stack> for BoundedVec<W> {
+    fn remaining(&self) -> usize {
+        self.v.len()
+    }
+}
+
+/// `bits.bstack W cap | ops` / `bits.bqueue W cap | ops`: bit coders over a bounded sink
+fn run_bounded<W: BitArray>(is_stack: bool, cap: usize, segs: &[Vec<&str>]) -> String {
+    let mut outs = vec!["ok".to_string()];
+    let mut stack: Option<StackCoder<W, BoundedVec<W>>> = None;
+    let mut queue: Option<QueueEncoder<W, BoundedVec<W>>> = None;
+    if is_stack {
+        match StackCoder::<W, BoundedVec<W>>::from_compressed(BoundedVec { v: Vec::new(), cap }) {
+            Ok(c) => stack = Some(c),
+            Err(_) => return "err".into(),
+        }
+    } else {
+        queue = Some(QueueEncoder::<W, BoundedVec<W>>::from_compressed(BoundedVec { v: Vec::new(), cap }));
+    }
+    fn write_one<W: BitArray>(s: &mut Option<StackCoder<W, BoundedVec<W>>>, q: &mut Option<QueueEncoder<W, BoundedVec<W>>>, b: bool) -> bool {
+        match (s, q) {
+            (Some(c), _) => c.write_bit(b).is_ok(),
+            (_, Some(c)) => c.write_bit(b).is_ok(),
+            _ => false,
+        }
+    }
+    for seg in &segs[1..] {
+        let r = guarded(|| -> Option<(String, bool)> {
+            Some(match seg.as_slice() {
+                ["w", b] => {
+                    let b = parse_hex(b)?;
+                    if b > 1 {
+                        return None;
+                    }
+                    (if write_one(&mut stack, &mut queue, b == 1) { "ok".into() } else { "full".into() }, false)
+                }
+                ["ws", bs] => {
+                    let bs = parse_bits(bs)?;
+                    let mut res = "ok".to_string();
+                    for (i, b) in bs.iter().enumerate() {
+                        if !write_one(&mut stack, &mut queue, *b) {
+                            res = format!("full@{:x}", i);
+                            break;
+                        }
+                    }
+                    (res, false)
+                }
+                ["r"] => {
+                    let c = stack.as_mut()?;
+                    (show_opt_bit(c.read_bit().unwrap_infallible()).to_string(), false)
+                }
+                ["len"] => (hex(match (&stack, &queue) { (Some(c), _) => c.len(), (_, Some(c)) => c.len(), _ => return None } as u128), false),
+                ["raw"] => {
+                    let (b, cw, mask) = match (&stack, &queue) {
+                        (Some(c), _) => { let (b, cw, m) = c.verif_raw(); (b.v.clone(), cw, m) }
+                        (_, Some(c)) => { let (b, cw, m) = c.verif_raw(); (b.v.clone(), cw, m) }
+                        _ => return None,
+                    };
+                    (format!("{} {} {}", show_words(&b), hex(to_u128(cw)), hex(to_u128(mask))), false)
+                }
+                ["export"] => {
+                    let r = match (stack.take(), queue.take()) {
+                        (Some(c), _) => c.into_compressed(),
+                        (_, Some(c)) => c.into_compressed(),
+                        _ => return None,
+                    };
+                    (match r { Ok(b) => show_words(&b.v), Err(()) => "full".into() }, true)
+                }
+                _ => return None,
+            })
+        });
+        match r {
+            Ok(Some((o, dead))) => {
+                outs.push(o);
+                if dead {
+                    break;
+                }
+            }
+            Ok(None) => {
+                outs.push("bad-op".into());
+                break;
+            }
+            Err(class) => {
+                outs.push(class.to_string());
+                break;
+            }
+        }
+    }
+    outs.join(" | ")
+}
+
+fn gen_bounded_line(rng: &mut Rng) -> String {
+    let w = *rng.pick(&[8u32, 8, 16, 32, 64]);
+    let is_stack = rng.chance(1, 2);
+    let cap = (rng.next() % 4) as usize;
+    let mut line = format!("bits.{} {:x} {:x}", if is_stack { "bstack" } else { "bqueue" }, w, cap);
+    // enough bits to run into the refusal, around every fill level of the last word
+    let total = (cap as u32 + 1) * w;
+    let n_ops = 2 + rng.next() % 8;
+    let mut written = 0u32;
+    for _ in 0..n_ops {
+        let op = match rng.next() % 10 {
+            0..=3 => {
+                let k = match rng.next() % 4 { 0 => total.saturating_sub(written) + (rng.next() % 3) as u32, 1 => w, 2 => w - 1, _ => 1 + (rng.next() % (2 * w as u64)) as u32 };
+                let k = k.min(300);
+                written += k;
+                format!("ws {}", show_bits(&rand_bits(rng, k as usize)))
+            }
+            4 | 5 => { written += 1; format!("w {:x}", rng.next() % 2) }
+            6 => "len".to_string(),
+            7 => "raw".to_string(),
+            _ => if is_stack { "r".to_string() } else { "len".to_string() },
+        };
+        line.push_str(" | ");
+        line.push_str(&op);
+    }
+    line.push_str(" | raw | len");
+    if is_stack && rng.chance(1, 2) {
+        for _ in 0..(rng.next() % 20) {
+            line.push_str(" | r");
+        }
+        line.push_str(" | raw");
+    }
+    if rng.chance(2, 3) {
+        line.push_str(" | export");
+    }
+    line
+}
+
+/// C16 over a sink that can refuse: the accepted bits, and only they, come back (stack: in reverse
+/// order; queue: in the exported words), `len` counts exactly the accepted bits, and a refused
+/// `write_bit` changes nothing
+fn oracle_bounded<W: BitArray>(rng: &mut Rng, iters: usize, rep: &mut Report) {
+    let w = W::BITS as usize;
+    for _ in 0..iters {
+        let cap = (rng.next() % 4) as usize;
+        let n = ((cap + 1) * w + (rng.next() % (w as u64 + 3)) as usize).min(400);
+        let n = if rng.chance(1, 4) { (rng.next() % (n as u64 + 1)) as usize } else { n };
+        let bits = rand_bits(rng, n);
+        let desc = |kind: &str| format!("bits.{} {:x} {:x} | ws {}", kind, w, cap, show_bits(&bits));
+        // ---- stack ----
+        set_case(&desc("bstack"));
+        let r = guarded(|| {
+            let mut c = StackCoder::<W, BoundedVec<W>>::from_compressed(BoundedVec { v: Vec::new(), cap }).ok()?;
+            let mut accepted: Vec<bool> = Vec::new();
+            let mut refused_at = None;
+            for (i, &b) in bits.iter().enumerate() {
+                let before = { let (bk, cw, m) = c.verif_raw(); (bk.v.clone(), cw, m) };
+                match c.write_bit(b) {
+                    Ok(()) => accepted.push(b),
+                    Err(()) => {
+                        let after = { let (bk, cw, m) = c.verif_raw(); (bk.v.clone(), cw, m) };
+                        if before != after {
+                            return Some(Err(format!("write {} refused but the coder changed", i)));
+                        }
+                        refused_at = Some(i);
+                        // a retry is refused again and still changes nothing
+                        if c.write_bit(b).is_ok() {
+                            return Some(Err(format!("write {} refused, then accepted on retry with a full sink", i)));
+                        }
+                        break;
+                    }
+                }
+            }
+            if c.len() != accepted.len() {
+                return Some(Err(format!("len() = {:x} after {:x} accepted bits (refusal at {:?})", c.len(), accepted.len(), refused_at)));
+            }
+            let mut back = Vec::new();
+            while let Some(b) = c.read_bit().unwrap_infallible() {
+                back.push(b);
+                if back.len() > accepted.len() + 2 { break; }
+            }
+            back.reverse();
+            if back != accepted {
+                return Some(Err(format!("accepted {} but reading back (reversed) gives {} (refusal at {:?})", show_bits(&accepted), show_bits(&back), refused_at)));
+            }
+            Some(Ok(refused_at.is_some()))
+        });
+        rep.eval("C16");
+        match r {
+            Ok(Some(Ok(refused))) => { if refused { rep.count("C16.bounded.stack.refused"); } else { rep.count("C16.bounded.stack.all_accepted"); } }
+            Ok(Some(Err(t))) => rep.fail("C16", format!("{} => {}", desc("bstack"), t)),
+            Ok(None) => {}
+            Err(class) => rep.fail("C16", format!("{} => {}", desc("bstack"), class)),
+        }
+        // ---- queue ----
+        set_case(&desc("bqueue"));
+        let r = guarded(|| {
+            let mut c = QueueEncoder::<W, BoundedVec<W>>::from_compressed(BoundedVec { v: Vec::new(), cap });
+            let mut accepted: Vec<bool> = Vec::new();
+            let mut refused = false;
+            for (i, &b) in bits.iter().enumerate() {
+                let before = { let (bk, cw, m) = c.verif_raw(); (bk.v.clone(), cw, m) };
+                match c.write_bit(b) {
+                    Ok(()) => accepted.push(b),
+                    Err(()) => {
+                        let after = { let (bk, cw, m) = c.verif_raw(); (bk.v.clone(), cw, m) };
+                        if before != after {
+                            return Err(format!("write {} refused but the encoder changed", i));
+                        }
+                        refused = true;
+                        break;
+                    }
+                }
+            }
+            if c.len() != accepted.len() {
+                return Err(format!("len() = {:x} after {:x} accepted bits", c.len(), accepted.len()));
+            }
+            // content: the words in the sink plus the buffered word hold exactly the accepted bits
+            let (bk, cw, mask) = c.verif_raw();
+            let mut got: Vec<bool> = Vec::new();
+            for &word in bk.v.iter() {
+                for k in 0..w { got.push((to_u128(word) >> k) & 1 == 1); }
+            }
+            let m = to_u128(mask);
+            if m != 0 {
+                let top = 127 - m.leading_zeros() as usize;
+                for k in 0..=top { got.push((to_u128(cw) >> k) & 1 == 1); }
+            }
+            if got != accepted {
+                return Err(format!("accepted {} but the encoder holds {}", show_bits(&accepted), show_bits(&got)));
+            }
+            Ok(refused)
+        });
+        rep.eval("C16");
+        match r {
+            Ok(Ok(refused)) => { if refused { rep.count("C16.bounded.queue.refused"); } else { rep.count("C16.bounded.queue.all_accepted"); } }
+            Ok(Err(t)) => rep.fail("C16", format!("{} => {}", desc("bqueue"), t)),
+            Err(class) => rep.fail("C16", format!("{} => {}", desc("bqueue"), class)),
+        }
+    }
+}
+
+// ---------------------------------------------------------------------------------------
 // test codebooks (exercise the default trait methods, which go through `SmallBitStack`)
 
 /// overrides both methods: emits exactly the given bits in either form
@@ -667,6 +928,18 @@ pub fn run(segs: &[Vec<&str>]) -> String {
                 None => "bad-op".into(),
             }
         }
+        [kind @ ("bits.bstack" | "bits.bqueue"), w, cap] => {
+            let is_stack = *kind == "bits.bstack";
+            let cap = match parse_hex(cap) { Some(c) if c < 1 << 20 => c as usize, _ => return "bad-op".into() };
+            match parse_hex(w) {
+                Some(8) => run_bounded::<u8>(is_stack, cap, segs),
+                Some(16) => run_bounded::<u16>(is_stack, cap, segs),
+                Some(32) => run_bounded::<u32>(is_stack, cap, segs),
+                Some(64) => run_bounded::<u64>(is_stack, cap, segs),
+                Some(_) => "unsupported".into(),
+                None => "bad-op".into(),
+            }
+        }
         [kind @ ("bits.stacksweep" | "bits.queuesweep"), w, n] if segs.len() == 1 => {
             let is_stack = *kind == "bits.stacksweep";
             match (parse_hex(w), parse_hex(n)) {
@@ -1038,6 +1311,10 @@ pub fn gen(rng: &mut Rng, tier: &str, out: &mut Vec<String>) {
             out.push(format!("bits.stacksweep {:x} {:x}", w, n));
             out.push(format!("bits.queuesweep {:x} {:x}", w, n));
         }
+    }
+    // sinks that can refuse a write (bounded): the refusal lands on every fill level
+    for _ in 0..(if thorough { 4000 } else { 300 }) {
+        out.push(gen_bounded_line(rng));
     }
     if thorough {
         out.push("bits.stacksweep 10 12".to_string()); // u16, 18 bits: crosses the first word
@@ -2420,6 +2697,11 @@ pub fn oracle(rng: &mut Rng, tier: &str, rep: &mut Report) {
     let thorough = tier == "thorough";
     // directed cases first: their replays are the shortest
     let greps = if thorough { 8 } else { 1 };
+    let breps = if thorough { 20000 } else { 800 };
+    oracle_bounded::<u8>(rng, breps, rep);
+    oracle_bounded::<u16>(rng, breps, rep);
+    oracle_bounded::<u32>(rng, breps, rep);
+    oracle_bounded::<u64>(rng, breps, rep);
     oracle_guard_twin::<u8>(rng, greps, rep);
     oracle_guard_twin::<u16>(rng, greps, rep);
     oracle_guard_twin::<u32>(rng, greps, rep);
